@@ -222,7 +222,11 @@ func (m *BlockManager) processRequest(ctx context.Context, request *downloadRequ
 				countWithoutActiveDownload++
 			}
 
-			if activeDownloadCount < m.concurrentBlockRequests {
+			// Check for completion after counting the active downloads. A completed download is
+			// marked complete before it is removed from the active downloads, so if it was not
+			// counted then it is already marked complete and the block must not be requested
+			// again. The completion is handled below in the next iteration.
+			if activeDownloadCount < m.concurrentBlockRequests && !m.currentRequestIsComplete() {
 				if err := m.requestBlock(ctx, request.hash, request.height,
 					request.processor); err != nil {
 					logger.Warn(ctx, "Failed to request block : %s", err)
@@ -356,6 +360,13 @@ func (m *BlockManager) removeDownloader(ctx context.Context, downloader *BlockDo
 	m.downloaderLock.Unlock()
 }
 
+func (m *BlockManager) currentRequestIsComplete() bool {
+	m.currentLock.Lock()
+	defer m.currentLock.Unlock()
+
+	return m.currentIsComplete
+}
+
 func (m *BlockManager) markBlockRequestComplete(ctx context.Context, hash bitcoin.Hash32) {
 	// Update status of block request
 	m.currentLock.Lock()
@@ -388,12 +399,15 @@ func (c *downloadFinisher) onDownloaderCompleted(ctx context.Context, err error)
 		logger.Stringer("block_hash", hash), logger.Int("block_height", c.downloader.Height()))
 	logger.Verbose(ctx, "Finishing downloader : %s", err)
 
-	c.manager.removeDownloader(ctx, c.downloader)
-
 	if err == nil {
+		// Mark the request complete before removing the downloader so the block isn't requested
+		// again in between because there are no active downloaders.
 		c.manager.markBlockRequestComplete(ctx, hash)
+		c.manager.removeDownloader(ctx, c.downloader)
 		return
 	}
+
+	c.manager.removeDownloader(ctx, c.downloader)
 
 	if errors.Cause(err) == threads.Interrupted {
 		logger.Verbose(ctx, "Block download interrupted")
